@@ -9,6 +9,9 @@ standard's algorithms written as a *writer* (and as the reader-side Algorithms 6
 correspondence check for C06 ties the model to `Rc4`, `Decoder::{from_password, decrypt}` and the file
 loader of the current source tree.
 
+Statement vocabulary (`Exempt`, `UCheck`, `Matches`, `StoredAs`, `EncVal`, `WrittenRc4`, `WrittenU56`,
+`WrittenO56`) is at the end of `Spec/StdSecurity.lean`; helper lemmas are in `Lemmas/Crypt.lean`.
+
 Hypotheses about third-party code, explicit in every theorem that needs them:
 `hp : PrimsAgree P H` — MD5, SHA-256/384/512, the AES block function and SASLprep are functions (`H`);
 `hw : H.WF` — their output sizes, and AES decryption inverts AES encryption for 16 / 32 byte keys.
@@ -18,11 +21,6 @@ RC4 is concrete.
 namespace Crypt
 open StdSec
 
-/-- the objects `Decoder::decrypt` leaves alone -/
-def Exempt (d : Decoder) (id gen : Nat) : Prop :=
-  d.encryptRef = some (id, gen) ∨ (d.encryptMetadata = false ∧ d.metadataRef = some (id, gen))
-
-instance (d : Decoder) (id gen : Nat) : Decidable (Exempt d id gen) := by unfold Exempt; infer_instance
 
 /-! ## RC4 -/
 
@@ -54,59 +52,6 @@ example : rc4Encrypt [0x57, 0x69, 0x6b, 0x69] [0x70, 0x65, 0x64, 0x69, 0x61] = .
 
 /-! ## Per-object decryption inverts the standard's encryption (Algorithm 1 / 1.A) -/
 
-theorem ite_isEmpty_of_length_pos {α : Type} (l : Bytes) (h : 0 < l.length) (a b : α)
-    [inst : Decidable (l.isEmpty = true)] : (@ite α (l.isEmpty = true) inst a b) = b := by
-  have hn : ¬ (l.isEmpty = true) := by
-    cases l with
-    | nil => simp at h
-    | cons _ _ => simp
-  rw [if_neg hn]
-
-theorem rc4_roundtrip_aux (okey data : Bytes) (hv : validKey okey) :
-    (if (rc4 okey data).isEmpty = true then Out.ok (rc4 okey data) else rc4Encrypt okey (rc4 okey data)) = .ok data := by
-  rw [rc4Encrypt_eq hv, rc4_rc4]
-  cases data with
-  | nil =>
-    have : rc4 okey [] = [] := List.eq_nil_of_length_eq_zero (by rw [rc4_length]; rfl)
-    rw [this]; rfl
-  | cons x xs => exact ite_isEmpty_of_length_pos _ (by rw [rc4_length]; simp) _ _
-
-theorem decrypt_v2 (P : Prims) (d : Decoder) (id gen : Nat) (data : Bytes) (h : ¬ Exempt d id gen) (hm : d.method = .v2) :
-    decrypt P d id gen data =
-      if data.isEmpty then .ok data else
-      d.keyOf.bind fun k => (P.md5 (k ++ idBytes id ++ genBytes gen)).bind fun h =>
-          rc4Encrypt (h.take (min (k.length + 5) 16)) data := by
-  unfold Exempt at h
-  have h1 : ¬ d.encryptRef = some (id, gen) := fun e => h (Or.inl e)
-  have h2 : ¬ ((!d.encryptMetadata) = true ∧ d.metadataRef = some (id, gen)) := by
-    intro ⟨a, b⟩; exact h (Or.inr ⟨by simpa using a, b⟩)
-  unfold decrypt
-  rw [if_neg h1, if_neg h2, hm]
-
-theorem decrypt_aesv2 (P : Prims) (d : Decoder) (id gen : Nat) (data : Bytes) (h : ¬ Exempt d id gen) (hm : d.method = .aesv2) :
-    decrypt P d id gen data =
-      if data.isEmpty then .ok data else
-      d.keyOf.bind fun k => (P.md5 (k ++ idBytes id ++ genBytes gen ++ sAlT)).bind fun h =>
-          if data.length < 16 then .err
-          else cbcDecryptPkcs7 P 16 (h.take (min (min d.keySize 16 + 5) 16)) (data.take 16) (data.drop 16) := by
-  unfold Exempt at h
-  have h1 : ¬ d.encryptRef = some (id, gen) := fun e => h (Or.inl e)
-  have h2 : ¬ ((!d.encryptMetadata) = true ∧ d.metadataRef = some (id, gen)) := by
-    intro ⟨a, b⟩; exact h (Or.inr ⟨by simpa using a, b⟩)
-  unfold decrypt
-  rw [if_neg h1, if_neg h2, hm]
-
-theorem decrypt_aesv3 (P : Prims) (d : Decoder) (id gen : Nat) (data : Bytes) (h : ¬ Exempt d id gen) (hm : d.method = .aesv3) :
-    decrypt P d id gen data =
-      if data.isEmpty then .ok data else
-      if data.length < 16 then .err else cbcDecryptPkcs7 P 32 d.key (data.take 16) (data.drop 16) := by
-  unfold Exempt at h
-  have h1 : ¬ d.encryptRef = some (id, gen) := fun e => h (Or.inl e)
-  have h2 : ¬ ((!d.encryptMetadata) = true ∧ d.metadataRef = some (id, gen)) := by
-    intro ⟨a, b⟩; exact h (Or.inr ⟨by simpa using a, b⟩)
-  unfold decrypt
-  rw [if_neg h1, if_neg h2, hm]
-
 /-- **decrypt ∘ encrypt, RC4 (V2)**: for every file key the decoder holds (any length up to 16, in
     particular 5..16), every object and generation number (also beyond 3 / 2 bytes), every data incl. empty. -/
 theorem decrypt_encrypt_v2 {P : Prims} {H : Hashes} (hp : PrimsAgree P H) (hw : H.WF) (d : Decoder) (fileKey : Bytes)
@@ -116,20 +61,6 @@ theorem decrypt_encrypt_v2 {P : Prims} {H : Hashes} (hp : PrimsAgree P H) (hw : 
   simp only [encryptObject, objectKey]
   simp only [hk, Out.bind_ok, hp.md5, idBytes_eq, genBytes_eq]
   exact rc4_roundtrip_aux _ data (by unfold validKey; rw [List.length_take, hw.md5_len]; omega)
-
-/-- the CBC + PKCS#7 part shared by AESV2 and AESV3 -/
-theorem cbcDecryptPkcs7_encrypt {P : Prims} {H : Hashes} (hp : PrimsAgree P H) (hw : H.WF) (klen : Nat) (key iv data : Bytes)
-    (hkl : key.length = klen) (hk : klen = 16 ∨ klen = 32) (hiv : iv.length = 16) :
-    cbcDecryptPkcs7 P klen key iv (cbcEnc (H.aesE key) ((pkcs7Pad data).length / 16) iv (pkcs7Pad data)) = .ok data := by
-  have ⟨hmod, _⟩ := pkcs7Pad_length data
-  have hlen : (pkcs7Pad data).length = 16 * ((pkcs7Pad data).length / 16) := by omega
-  have hE : ∀ b, b.length = 16 → (H.aesE key b).length = 16 := hw.aesE_len key
-  have hD : ∀ b, b.length = 16 → H.aesD key (H.aesE key b) = b := fun b hb => hw.aesD_E key b (by omega) hb
-  have hcl := cbcEnc_length hE _ iv (pkcs7Pad data) hiv hlen
-  unfold cbcDecryptPkcs7
-  rw [if_neg (by omega), if_neg (by omega), cbcDecryptBlocks_eq hp, Out.bind_ok, hcl]
-  rw [show 16 * ((pkcs7Pad data).length / 16) / 16 = (pkcs7Pad data).length / 16 by omega]
-  rw [cbcDec_cbcEnc hE hD _ iv _ hiv hlen, pkcs7Unpad_pad]
 
 /-- **decrypt ∘ encrypt, AES-128 (AESV2)**: every object / generation number, every length incl. 0 and
     block-aligned (a whole padding block), every 16 byte IV. -/
@@ -181,17 +112,6 @@ theorem metadata_untouched (P : Prims) (d : Decoder) (id gen : Nat) (data : Byte
 
 /-! ## Passwords, revisions 2–4: `from_password` decides exactly what Algorithms 6 and 7 decide -/
 
-/-- the comparison of Algorithm 6 for a candidate key -/
-def UCheck (H : Hashes) (r : Nat) (u id k : Bytes) : Prop :=
-  if r = 2 then makeU H 2 k id [] = u else makeU H r k id [] = u.take 16
-
-instance (H : Hashes) (r : Nat) (u id k : Bytes) : Decidable (UCheck H r u id k) := by unfold UCheck; infer_instance
-
-theorem authUser_eq (H : Hashes) (r n : Nat) (o u : Bytes) (p : Int) (id : Bytes) (em : Bool) (pw : Bytes) :
-    authUser H r n o u p id em pw =
-      if UCheck H r u id ((alg2Digest H r n o p id em pw).take n) then some (alg2Digest H r n o p id em pw) else none := by
-  unfold authUser UCheck
-  by_cases h2 : r = 2 <;> simp [h2]
 
 /-- **`from_password`, revisions 2–4, is Algorithms 6 + 7.** For every encryption dictionary whose
     `V`/`Length`/`CF` entries select an `n`-byte key (1 ≤ n ≤ 16, i.e. in particular 40..128 bits), every
@@ -252,27 +172,6 @@ theorem from_password_rc4 {P : Prims} {H : Hashes} (hp : PrimsAgree P H) (hw : H
     · have hc2' := hc2; unfold UCheck at hc2'
       simp only [hc2', decide_false, if_false, hc2, Bool.false_eq_true]
 
-/-- what a conforming writer puts into `/O` and `/U` (Algorithms 3, 4, 5) for revisions 2–4 -/
-structure WrittenRc4 (H : Hashes) (d : CryptDict) (id0 : Bytes) (n : Nat) (userPw ownerPw tail : Bytes) : Prop where
-  o : d.o = makeO H d.r n ownerPw userPw
-  u : d.u = makeU H d.r (alg2Key H d.r n d.o d.p id0 d.encryptMetadata userPw) id0 tail
-
-theorem ucheck_written {H : Hashes} (hw : H.WF) {d : CryptDict} {id0 : Bytes} {n : Nat} {userPw ownerPw tail : Bytes}
-    (w : WrittenRc4 H d id0 n userPw ownerPw tail) :
-    UCheck H d.r d.u id0 ((alg2Digest H d.r n d.o d.p id0 d.encryptMetadata userPw).take n) := by
-  unfold UCheck
-  rw [w.u]
-  unfold alg2Key makeU
-  by_cases h2 : d.r = 2
-  · simp [h2]
-  · simp only [if_neg h2, List.append_nil]
-    rw [List.take_left']
-    rw [rc4Chain_length, hw.md5_len]
-
-theorem alg2Digest_pad32 (H : Hashes) (r n : Nat) (o : Bytes) (p : Int) (id0 : Bytes) (em : Bool) (pw : Bytes) :
-    alg2Digest H r n o p id0 em (pad32 pw) = alg2Digest H r n o p id0 em pw := by
-  unfold alg2Digest; rw [pad32_idem]
-
 /-- **the user password is accepted** (revisions 2–4) and the decoder holds the very key the writer
     derived with Algorithm 2 — for every key length 1..16 bytes, every password (any length, any bytes),
     `/P`, document id and `EncryptMetadata` flag. -/
@@ -331,24 +230,6 @@ theorem wrong_password_rejected_rc4 {P : Prims} {H : Hashes} (hp : PrimsAgree P 
     fromPassword P d id0 pw = .ok .invalidPassword := by
   rw [from_password_rc4 hp hw d id0 pw n m hsel hn hr, hwrong]
 
-theorem authenticate_some {H : Hashes} (hw : H.WF) (r n : Nat) (o u : Bytes) (p : Int) (id0 : Bytes) (em : Bool) (pw dg : Bytes)
-    (ha : authenticate H r n o u p id0 em pw = some dg) : dg.length = 16 ∧ UCheck H r u id0 (dg.take n) := by
-  unfold authenticate at ha
-  rw [authUser_eq] at ha
-  by_cases h1 : UCheck H r u id0 ((alg2Digest H r n o p id0 em pw).take n)
-  · rw [if_pos h1] at ha
-    injection ha with ha; subst ha
-    exact ⟨alg2Digest_length hw .., h1⟩
-  · rw [if_neg h1] at ha
-    simp only [authOwner] at ha
-    rw [authUser_eq] at ha
-    generalize rc4Chain (alg3Key H r n pw) (if r ≥ 3 then (List.range 20).reverse else [0]) o = upw at ha
-    by_cases h2 : UCheck H r u id0 ((alg2Digest H r n o p id0 em upw).take n)
-    · rw [if_pos h2] at ha
-      injection ha with ha; subst ha
-      exact ⟨alg2Digest_length hw .., h2⟩
-    · rw [if_neg h2] at ha; cases ha
-
 /-- … and only then: a password the model accepts is one the standard accepts, and the key the decoder
     holds reproduces `/U` -/
 theorem accepted_only_if_authenticated_rc4 {P : Prims} {H : Hashes} (hp : PrimsAgree P H) (hw : H.WF) (d : CryptDict) (id0 pw : Bytes)
@@ -371,36 +252,14 @@ theorem accepted_only_if_authenticated_rc4 {P : Prims} {H : Hashes} (hp : PrimsA
 
 /-! ## Passwords, revisions 5 and 6 -/
 
-theorem loop2B_length {H : Hashes} (hw : H.WF) (pw u : Bytes) (f : Nat) :
-    ∀ (i : Nat) (k x : Bytes), loop2B H pw u f i k = some x → x.length = 32 := by
-  induction f with
-  | zero => intro i k x h; cases h
-  | succ f ih =>
-    intro i k x h
-    simp only [loop2B] at h
-    have hk : KLen (round2B H pw u k).1 := by
-      unfold round2B KLen; simp only []
-      split
-      · exact Or.inl (hw.sha256_len _)
-      · split
-        · exact Or.inr (Or.inl (hw.sha384_len _))
-        · exact Or.inr (Or.inr (hw.sha512_len _))
-    generalize round2B H pw u k = r at h hk
-    obtain ⟨k', l⟩ := r
-    simp only [] at h hk
-    split at h
-    · injection h with h; subst h; rw [List.length_take]; unfold KLen at hk; omega
-    · exact ih _ _ _ h
-
-theorem hash56_length {H : Hashes} (hw : H.WF) (r : Nat) (pw salt u : Bytes) : (StdSec.hash56 H r pw salt u).length = 32 := by
-  unfold StdSec.hash56
-  split
-  · unfold hash2B
-    have hs := loop2B_isSome H pw u 288 0 (H.sha256 (pw ++ salt ++ u)) (by decide) (by decide)
-    cases hh : loop2B H pw u 288 0 (H.sha256 (pw ++ salt ++ u)) with
-    | none => rw [hh] at hs; cases hs
-    | some x => exact loop2B_length hw pw u 288 0 _ x hh
-  · exact hw.sha256_len _
+/-- **`revision_6_kdf` is Algorithm 2.B** of ISO 32000-2 for every password of at most 127 bytes (what
+    `from_password` passes after the truncation), every salt, and `u` empty or the 48 bytes of `/U`: same
+    rounds, same stopping rule (`while i < 64 || i < last + 32` against "64 rounds, then until the last
+    byte of E is at most the round number minus 32"), the byte sum modulo 3 against the big-endian number
+    modulo 3, no panic (the scratch buffer is large enough) and no exhaustion of the 289 units of fuel. -/
+theorem revision_6_kdf_is_algorithm_2B {P : Prims} {H : Hashes} (hp : PrimsAgree P H) (hw : H.WF) (pw salt u : Bytes)
+    (hpw : pw.length ≤ 127) (hu : u.length ≤ 48) : revision6Kdf P pw salt u = .ok (hash2B H pw salt u) :=
+  revision6Kdf_eq hp hw pw salt u hpw hu
 
 /-- **`from_password`, revisions 5 and 6, in the terms of the standard**: SASLprep + truncation to 127 bytes,
     the user check with the user validation salt, else the owner check with the owner validation salt and
@@ -478,28 +337,6 @@ theorem wrong_password_rejected_56 {P : Prims} {H : Hashes} (hp : PrimsAgree P H
       · rw [if_pos h1] at hwrong; cases hwrong
       · rw [if_neg h1, if_neg h2]
 
-/-- the `/U`, `/UE` a conforming writer produces (Algorithm 8) for the prepared user password `pU` -/
-structure WrittenU56 (H : Hashes) (d : CryptDict) (pU vs ks fileKey : Bytes) : Prop where
-  u : d.u = makeU56 H d.r pU vs ks
-  ue : d.ue = some (makeUE H d.r pU ks fileKey)
-  vs : vs.length = 8
-  ks : ks.length = 8
-  key : fileKey.length = 32
-
-theorem unwrap_wrap {H : Hashes} (hw : H.WF) (ik fileKey : Bytes) (hik : ik.length = 32) (hk : fileKey.length = 32) :
-    cbcDec (H.aesD ik) 2 zeroIV (cbcEnc (H.aesE ik) 2 zeroIV fileKey) = fileKey :=
-  cbcDec_cbcEnc (hw.aesE_len ik) (fun b hb => hw.aesD_E ik b (Or.inr hik) hb) 2 zeroIV fileKey (by simp [zeroIV]) (by omega)
-
-theorem makeU56_parts {H : Hashes} (hw : H.WF) (r : Nat) (p vs ks : Bytes) (hvs : vs.length = 8) (hks : ks.length = 8) :
-    (makeU56 H r p vs ks).length = 48 ∧ (makeU56 H r p vs ks).take 32 = StdSec.hash56 H r p vs [] ∧
-    ((makeU56 H r p vs ks).drop 32).take 8 = vs ∧ ((makeU56 H r p vs ks).drop 40).take 8 = ks := by
-  have hl := hash56_length hw r p vs []
-  unfold makeU56
-  refine ⟨by simp [hl, hvs, hks], ?_, ?_, ?_⟩
-  · rw [List.append_assoc, List.take_left' hl]
-  · rw [List.append_assoc, List.drop_left' hl, List.take_left' hvs]
-  · rw [show 40 = (StdSec.hash56 H r p vs [] ++ vs).length by simp [hl, hvs], List.drop_left, List.take_of_length_le (by omega)]
-
 /-- **the user password is accepted** (revisions 5, 6): the decoder's key is the file key the writer
     wrapped into `/UE` — for every password SASLprep accepts (of any length: 127 bytes count), all salts,
     every 32 byte file key, every `/O`, `/OE` of the right size. -/
@@ -517,14 +354,6 @@ theorem user_password_accepted_56 {P : Prims} {H : Hashes} (hp : PrimsAgree P H)
   rw [w.u, hv, ht, hk, if_pos rfl]
   unfold makeUE
   rw [unwrap_wrap hw _ _ (hash56_length hw ..) w.key]
-
-/-- the `/O`, `/OE` of Algorithm 9 for the prepared owner password `pO` -/
-structure WrittenO56 (H : Hashes) (d : CryptDict) (pO vs ks fileKey : Bytes) : Prop where
-  o : d.o = makeO56 H d.r pO vs ks d.u
-  oe : d.oe = some (makeOE H d.r pO ks d.u fileKey)
-  vs : vs.length = 8
-  ks : ks.length = 8
-  key : fileKey.length = 32
 
 /-- **the owner password is accepted** (revisions 5, 6) with the same file key. Only assumption beyond the
     primitives: *if* the owner password also passes the user check (same password in both roles, or a
@@ -559,19 +388,6 @@ theorem owner_password_accepted_56 {P : Prims} {H : Hashes} (hp : PrimsAgree P H
 
 /-! ## Whole objects: every string and every stream of a document -/
 
-/-- the decoder holds the file key the writer used, for the writer's cipher -/
-def Matches (d : Decoder) (c : Cipher) (fileKey : Bytes) : Prop :=
-  match c with
-  | .rc4 => d.method = .v2 ∧ d.keyOf = .ok fileKey
-  | .aes128 => d.method = .aesv2 ∧ d.keyOf = .ok fileKey ∧ fileKey.length = 16
-  | .aes256 => d.method = .aesv3 ∧ d.key = fileKey ∧ fileKey.length = 32
-
-/-- how a conforming writer stores the string / stream data `plain` of object `(id, gen)`: unchanged when
-    the object is exempt (the encryption dictionary; the metadata object when `EncryptMetadata` is false),
-    otherwise Algorithm 1 / 1.A with an arbitrary 16 byte IV -/
-def StoredAs (H : Hashes) (c : Cipher) (fileKey : Bytes) (exempt : Prop) (id gen : Nat) (plain stored : Bytes) : Prop :=
-  (exempt ∧ stored = plain) ∨ (¬ exempt ∧ ∃ iv : Bytes, iv.length = 16 ∧ stored = encryptObject H c fileKey id gen iv plain)
-
 /-- **every string and every stream, every variant**: what the writer stored decrypts to the plaintext -/
 theorem decrypt_stored {P : Prims} {H : Hashes} (hp : PrimsAgree P H) (hw : H.WF) (d : Decoder) (c : Cipher) (fileKey : Bytes)
     (hm : Matches d c fileKey) (id gen : Nat) (plain stored : Bytes)
@@ -584,56 +400,6 @@ theorem decrypt_stored {P : Prims} {H : Hashes} (hp : PrimsAgree P H) (hw : H.WF
     | rc4 => exact decrypt_encrypt_v2 hp hw d fileKey hm.1 hm.2 id gen iv plain hx
     | aes128 => exact decrypt_encrypt_aesv2 hp hw d fileKey hm.1 hm.2.1 hm.2.2 id gen iv plain hiv hx
     | aes256 => exact decrypt_encrypt_aesv3 hp hw d fileKey hm.1 hm.2.1 hm.2.2 id gen iv plain hiv hx
-
-mutual
-/-- `stored` is `plain` with every string replaced by a stored form (`R plain stored`), same shape -/
-def EncVal (R : Bytes → Bytes → Prop) : Val → Val → Prop
-  | .str p, .str s => R p s
-  | .atom t, .atom t' => t = t'
-  | .arr ps, .arr ss => EncVals R ps ss
-  | .dict ps, .dict ss => EncKvs R ps ss
-  | _, _ => False
-def EncVals (R : Bytes → Bytes → Prop) : List Val → List Val → Prop
-  | [], [] => True
-  | p :: ps, s :: ss => EncVal R p s ∧ EncVals R ps ss
-  | _, _ => False
-def EncKvs (R : Bytes → Bytes → Prop) : List (Bytes × Val) → List (Bytes × Val) → Prop
-  | [], [] => True
-  | (k, p) :: ps, (k', s) :: ss => k = k' ∧ EncVal R p s ∧ EncKvs R ps ss
-  | _, _ => False
-end
-
-mutual
-theorem decryptVal_enc {P : Prims} {R : Bytes → Bytes → Prop} (d : Decoder) (id gen : Nat)
-    (hR : ∀ p s, R p s → decrypt P d id gen s = .ok p) :
-    ∀ (plain stored : Val), EncVal R plain stored → decryptVal P (some d) id gen stored = .ok plain
-  | .str p, .str s, h => by simp only [EncVal] at h; simp [decryptVal, ctxDecrypt, hR p s h]
-  | .atom t, .atom t', h => by simp only [EncVal] at h; simp [decryptVal, h]
-  | .arr ps, .arr ss, h => by
-    simp only [EncVal] at h; simp [decryptVal, decryptVals_enc d id gen hR ps ss h]
-  | .dict ps, .dict ss, h => by
-    simp only [EncVal] at h; simp [decryptVal, decryptKvs_enc d id gen hR ps ss h]
-  | .str _, .atom _, h | .str _, .arr _, h | .str _, .dict _, h
-  | .atom _, .str _, h | .atom _, .arr _, h | .atom _, .dict _, h
-  | .arr _, .str _, h | .arr _, .atom _, h | .arr _, .dict _, h
-  | .dict _, .str _, h | .dict _, .atom _, h | .dict _, .arr _, h => by simp [EncVal] at h
-theorem decryptVals_enc {P : Prims} {R : Bytes → Bytes → Prop} (d : Decoder) (id gen : Nat)
-    (hR : ∀ p s, R p s → decrypt P d id gen s = .ok p) :
-    ∀ (plain stored : List Val), EncVals R plain stored → decryptVals P (some d) id gen stored = .ok plain
-  | [], [], _ => by simp [decryptVals]
-  | p :: ps, s :: ss, h => by
-    simp only [EncVals] at h
-    simp [decryptVals, decryptVal_enc d id gen hR p s h.1, decryptVals_enc d id gen hR ps ss h.2]
-  | [], _ :: _, h | _ :: _, [], h => by simp [EncVals] at h
-theorem decryptKvs_enc {P : Prims} {R : Bytes → Bytes → Prop} (d : Decoder) (id gen : Nat)
-    (hR : ∀ p s, R p s → decrypt P d id gen s = .ok p) :
-    ∀ (plain stored : List (Bytes × Val)), EncKvs R plain stored → decryptKvs P (some d) id gen stored = .ok plain
-  | [], [], _ => by simp [decryptKvs]
-  | (k, p) :: ps, (k', s) :: ss, h => by
-    simp only [EncKvs] at h
-    simp [decryptKvs, decryptVal_enc d id gen hR p s h.2.1, decryptKvs_enc d id gen hR ps ss h.2.2, h.1]
-  | [], _ :: _, h | _ :: _, [], h => by simp [EncKvs] at h
-end
 
 /-- **an indirect object read from the file**: for every object `(id, gen)` (the id is the one in the object
     header), every nesting of arrays and dictionaries, every number of strings: `resolve` yields the
@@ -683,6 +449,24 @@ theorem encrypt_dict_object_untouched (P : Prims) (d : Decoder) (id gen : Nat) (
       (by simp [EncKvs]) (fun kv kvs ihkv ihkvs => by cases kv; simp [EncKvs]; exact ⟨ihkv, ihkvs⟩)
       (fun k v ih => ih) v
   exact decryptVal_enc d id gen hR v v (hrefl v)
+
+/-- before revision 4 `/EncryptMetadata` means nothing: whatever the dictionary says, the decoder
+    `from_password` returns for revisions 2 and 3 exempts the encryption dictionary only, so the metadata
+    stream is decrypted like every other stream (after the repair f5ad9f6) -/
+theorem metadata_exemption_needs_r4 {P : Prims} {H : Hashes} (hp : PrimsAgree P H) (hw : H.WF) (d : CryptDict) (id0 pw : Bytes)
+    (n : Nat) (m : Method) (hsel : selectMethod d = .ok (8 * n, m)) (hn : 1 ≤ n ∧ n ≤ 16) (hr : 2 ≤ d.r ∧ d.r ≤ 3)
+    (dec : Decoder) (hacc : fromPassword P d id0 pw = .ok (.decoder dec)) (encRef metaRef : Option (Nat × Nat)) (id gen : Nat) :
+    Exempt (installDecoder dec encRef metaRef) id gen ↔ encRef = some (id, gen) := by
+  rw [from_password_rc4 hp hw d id0 pw n m hsel hn ⟨hr.1, by omega⟩] at hacc
+  cases ha : authenticate H d.r n d.o d.u d.p id0 d.encryptMetadata pw with
+  | none => rw [ha] at hacc; cases hacc
+  | some dg =>
+    rw [ha] at hacc
+    have hd : dec = Decoder.mk' dg n m (d.encryptMetadata || decide (d.r < 4)) := by
+      injection hacc with h; injection h with h; exact h.symm
+    subst hd
+    have : decide (d.r < 4) = true := by simp; omega
+    simp [Exempt, installDecoder, Decoder.mk', this]
 
 /-! ## The variants: what `V` / `Length` / `CF` select -/
 
@@ -835,4 +619,3 @@ theorem d17_old_code_always_fails (P : Prims) (key iv ct : Bytes) :
 example : rc4Encrypt [] PADDING = .panic := by decide +kernel
 
 end Crypt
-
